@@ -187,6 +187,15 @@ def gen_plan(prop, seed, tier):
             else:
                 k = int(math.exp(rng.uniform(0, math.log(4000))))
             ops[i]["async_k"] = k   # stored on the request itself so that shrinking keeps it attached
+    # number-class history for the equally spaced samplers: NodeSample.closed_linspace / open_linspace take the number
+    # class as a documented second argument; a float request for a size must not change what the default (Fraction)
+    # request and the Newton-Cotes weights of that size return afterwards.  Drawn from a generator of its own so that
+    # every other decision of the plan is the same as without this addition
+    rng2 = random.Random((seed * 0x9E3779B97F4A7C15 + 0x1234567) % (1 << 64))
+    if rng2.random() < 0.35:
+        sites = [i for i, o in enumerate(ops) if o["op"] in ("rule", "weights", "nodes") and o.get("fam") in EXACT_FAMS and "badn" not in o]
+        for i in sorted(rng2.sample(sites, min(len(sites), rng2.randint(1, 2))), reverse=True):
+            ops.insert(i, {"op": "nodes", "fam": ops[i]["fam"], "n": ops[i]["n"], "th": ops[i]["th"], "order": "nw", "ncls": "float"})
     return {"property": prop, "engine": "memo", "seed": seed, "tier": tier, "config": cfg, "ops": ops}
 
 
@@ -310,6 +319,8 @@ class MemoEngine:
             fam = op["fam"]
             nf = getattr(self.NodeSample, PAIR[fam])
             wf = getattr(self.IntegratorArray, fam)
+            if kind == "nodes" and op.get("ncls") == "float":
+                return {"nodes": tuple(nf(n, float))}
             if kind == "nodes":
                 return {"nodes": tuple(nf(n))}
             if kind == "weights":
@@ -386,7 +397,7 @@ class MemoEngine:
 
     def cold_answer(self, op):
         cacheable = op["op"] in ("rule", "weights", "nodes")
-        key = (op["op"], op.get("fam"), op.get("n"), op.get("order")) if cacheable else None
+        key = (op["op"], op.get("fam"), op.get("n"), op.get("order"), op.get("ncls")) if cacheable else None
         if cacheable and key in self.cold:
             return self.cold[key]
         self.restore_tables()
